@@ -117,6 +117,7 @@ package geom
 //@   requires maxDistance > 0
 //@ func Geometry.AppendWKT
 //@   modifies dst
+//@   ensures Kept(result, dst)
 
 //@ sweep /type_geometry.go -String -Scan -scanAsType -assignToConcrete -unmarshalGeoJSONAsType -UnmarshalJSON -Summary
 
